@@ -146,7 +146,7 @@ func genC08(t *rapid.T) C08Case {
 		}
 	}
 	for i, n := 0, rapid.IntRange(4, scale(25, 60)).Draw(t, "nops"); i < n; i++ {
-		op := C08Op{Op: rapid.SampledFrom([]string{"render", "render", "render", "renderMsgs", "js", "jsMsgs", "config", "renderFail"}).Draw(t, "op")}
+		op := C08Op{Op: rapid.SampledFrom([]string{"render", "render", "render", "renderMsgs", "js", "jsMsgs", "config", "renderFail", "rows"}).Draw(t, "op")}
 		op.Via = rapid.IntRange(0, 1).Draw(t, "via")
 		op.Tmpl = rapid.IntRange(0, 7).Draw(t, "tmpl")
 		op.Data = rapid.IntRange(0, 3).Draw(t, "data")
@@ -156,8 +156,15 @@ func genC08(t *rapid.T) C08Case {
 	return c
 }
 
+// c08Rows is a template rendered from Go structs (Tofu.Render converts them): two struct types that are
+// both called "row" (see localRowA / localRowB) must each show their own fields, whatever came before.
+const c08Rows = "\n/**\n * @param? name\n * @param? qty\n * @param? title\n * @param? count */\n{template .zzRows}{$name ?: '-'}|{$qty ?: '-'}|{$title ?: '-'}|{$count ?: '-'}{/template}\n"
+
 func checkC08(c C08Case) Verdict {
 	names, srcs := gen.Sources(&c.Prog.Prog)
+	if len(srcs) > 0 {
+		srcs[0] += c08Rows
+	}
 	cb, err, pn := compileBundle(names, srcs, c.Prog.Prog.Globals)
 	if err != nil || pn != nil {
 		return excluded("does not compile (C01/C02 matter)")
@@ -221,6 +228,21 @@ func checkC08(c C08Case) Verdict {
 		case "config":
 			config = op.Config
 			soyhtml.ObligatoryPrintDirectiveNames = append([]string{}, c08Configs[config]...)
+			return
+		case "rows":
+			var buf bytes.Buffer
+			var rerr error
+			val, want := localRowA("n", 3), "n|3|-|-"
+			if op.Data%2 == 1 {
+				val, want = localRowB("t", 4), "-|-|t|4"
+			}
+			p := catch(func() { rerr = cb.tofu.Render(&buf, c.Prog.Prog.Files[0].Namespace+".zzRows", val) })
+			if len(c08Configs[config]) > 0 {
+				return // (obligatory directives change the text; the conversion is judged under the default configuration)
+			}
+			if p != nil || rerr != nil || buf.String() != want {
+				failure = fmt.Errorf("step %d: Tofu.Render of a struct value (%T %+v) wrote %q (error %v, panic %v), want %q - it depends on what was rendered before", i, val, val, buf.String(), rerr, p, want)
+			}
 			return
 		case "renderFail":
 			// a render whose writer stops accepting bytes: its own result is C12's matter, here it is
